@@ -83,7 +83,12 @@ def by_prefix(F, cells, level=0):
             v = cells[base]
             if v is ABSENT:
                 return {}
-            return {level: v if (isinstance(v, Agg) and v.name == base) else newtype(F, ty, v)}
+            lvl = level
+            if isinstance(v, tuple) and len(v) == 3 and v[0] == "at":      # ("at", level, value)
+                lvl, v = v[1], v[2]
+            if isinstance(v, tuple) and len(v) == 2 and v[0] == "whole":    # ("whole", value): the cell IS this value
+                return {lvl: v[1]}
+            return {lvl: v if (isinstance(v, Agg) and v.name == base) else newtype(F, ty, v)}
         return None
     return auto
 
@@ -98,6 +103,19 @@ def payload_of(store, p, prefix, default=None):
                 return ABSENT
             return v.fields[0] if isinstance(v, Agg) and v.fields else v
     return default
+
+
+POPULATIONS = "mahf::state::common::Populations"
+RANDOM = "mahf::state::random::Random"
+
+
+def stack_and_rng(F, level=0, rng=None):
+    """cells for the two state types every component uses: the population stack (a symbol whose `stack` field is the modelled
+    stack of c04.StackModel) and the random generator, both held by scope `level` (0 = the scope the code runs in, 1 = the
+    enclosing scope: a component inside a Scope works on its surroundings' stack and generator)"""
+    sf = F.field_index(POPULATIONS, "stack")
+    popsym = Sym("populations", {sf: Sym("stack")})
+    return {POPULATIONS: ("at", level, ("whole", popsym)), RANDOM: ("at", level, ("whole", rng if rng is not None else Sym("rng")))}, popsym, sf
 
 
 def well_known(populations=None, rng=None):
